@@ -457,6 +457,13 @@ class Builder:
         e0 = strip_refs(e)
         if isinstance(e0, dict) and e0.get("k") == "path" and not (len(e0["segs"]) == 1 and e0["segs"][0] in env and not e0["segs"][0].startswith("__")):
             name = e0["segs"][-1]
+            mod = tuple(env.get("__module") or ())
+            if len(e0["segs"]) == 1:
+                # lexical lookup: the enclosing module first, then its ancestors
+                for i in range(len(mod), -1, -1):
+                    v = self.facts.consts.get("::".join(mod[:i] + (name,)))
+                    if v is not None:
+                        return v["e"] if v["e"].get("k") == "lit" else e
             cands = [v for k, v in self.facts.consts.items() if k.split("::")[-1] == name]
             if len(cands) == 1 and cands[0]["e"].get("k") == "lit":
                 return cands[0]["e"]
